@@ -1,0 +1,10 @@
+//go:build verif
+
+package jsonpb
+
+// Contracts for the deductive verifier in /verif (comment-only; build tag verif).
+// Safety only: the two JSON tree rewriters must not panic on any tree.
+
+//@ func jsonpb.convertHex
+
+//@ func jsonpb.convertBase64
